@@ -190,6 +190,38 @@ def repo_head():
         return '?'
 
 
+def anchored_hashes(prop):
+    """sha256 of ast.dump of every source file the property is anchored in (properties.jsonl)"""
+    import ast
+    out = {}
+    for l in open(os.path.join(ROOT, 'properties.jsonl')):
+        d = json.loads(l)
+        if d['id'] != prop:
+            continue
+        for f in d['anchors']['files']:
+            path = os.path.join(REPO, f)
+            files = []
+            if os.path.isdir(path):
+                for dd, _, fs in os.walk(path):
+                    files += [os.path.join(dd, x) for x in fs if x.endswith('.py')]
+            elif path.endswith('.py') and os.path.exists(path):
+                files = [path]
+            for x in sorted(files):
+                try:
+                    out[os.path.relpath(x, REPO)] = hashlib.sha256(ast.dump(ast.parse(open(x).read())).encode()).hexdigest()
+                except SyntaxError:
+                    out[os.path.relpath(x, REPO)] = 'syntax-error'
+    return out
+
+
+def drift(prop):
+    """files whose AST differs from the one the model was last validated against (harness/ast_hashes.json)"""
+    p = os.path.join(ROOT, 'harness', 'ast_hashes.json')
+    rec = json.load(open(p)).get(prop, {}) if os.path.exists(p) else {}
+    cur = anchored_hashes(prop)
+    return sorted(f for f in cur if rec.get(f) != cur[f])
+
+
 def jdump(o):
     return json.dumps(o, sort_keys=True, separators=(',', ':'))
 
@@ -267,7 +299,10 @@ def _check(prop, tier, replay):
         print('note: Lean driver not built; correspondence cannot run')
 
     # ---------- 3. correspondence + oracle on the implementation -----------------------------
-    search_mode = proof_broken or not ok
+    drifted = [] if os.environ.get('VERIF_NO_DRIFT') else drift(prop)
+    search_mode = proof_broken or not ok or bool(drifted)
+    if drifted:
+        print(f'note: anchored source changed since the model was last validated ({len(drifted)} file(s): {drifted[:3]}); searching harder')
     eff_tier = 'thorough' if (search_mode and tier == 'quick') else tier
     cases = []
     corpus_dir = os.path.join(ROOT, 'corpus', prop)
@@ -438,6 +473,7 @@ def _check(prop, tier, replay):
             'histogram': dict(hist.most_common(60)),
             'known_findings_seen': [k for k, _ in known_seen],
             'search_mode': search_mode,
+            'anchored_files_changed': drifted,
         },
         'assumptions': list(getattr(P, 'TRUSTED', [])),
         'wall_s': round(time.time() - t0, 2),
